@@ -4,7 +4,7 @@ import vlib, elfgen, filegen, fileq, streamgen
 
 LEVEL = "proof"
 RULE = ("generated and structurally corrupted objects (incl. header-only files of 52..64 bytes, files without section headers, "
-        "permuted section tables), each opened through ElfStream over a scripted Read+Seek (plain, 1..7-byte chunked reads, "
+        "permuted section tables, empty header tables declared at EOF), each opened through ElfStream over a scripted Read+Seek (plain, 1..7-byte chunked reads, "
         "Interrupted injections) and through ElfBytes; 4..14 queries in random order with repetition and with caller-made headers "
         "whose ranges share a start or an end (longer first and shorter first). Oracles: (metamorphic, implementation only) open "
         "success coincides, headers identical, each stream answer equals the slice answer whenever the slice answer is Ok (both "
@@ -28,6 +28,14 @@ def gen(rng, tier):
         bc = streamgen.bytesc_case(fam, data, qs)
         _pairs[sc] = (bc, qs, data, fam)
         cases += [sc, bc]
+        if i % 5 == 0:            # an empty program header table declared exactly at EOF (and one past it)
+            for off in (len(data), len(data) + 1, len(data) - 1):
+                d2 = elfgen.patch(elfgen.patch(elfgen.patch(data, meta, "ehdr", "e_phoff", off), meta, "ehdr", "e_phnum", 0),
+                                  meta, "ehdr", "e_phentsize", meta["phsz"])
+                sc2 = streamgen.stream_case(fam, d2, "plain", [], ["ehdr", "phdrs", "shdrs"])
+                bc2 = streamgen.bytesc_case(fam, d2, ["ehdr", "phdrs", "shdrs"])
+                _pairs[sc2] = (bc2, ["ehdr", "phdrs", "shdrs"], d2, fam)
+                cases += [sc2, bc2]
         if i % 11 == 0:           # every truncation of a small file: open success must coincide
             for cut in range(0, len(data)):
                 sc2 = streamgen.stream_case(fam, data[:cut], "plain", [], ["ehdr", "phdrs"])
